@@ -104,7 +104,14 @@ def shard(job) -> dict:
     acc = pool.Acc()
     n = len(entry["data"])
     ends = {hi for _, hi in entry["offsets"]}
-    for k in range(n + 1):
+    if entry.get("big"):
+        # big streams: every offset within 3 bytes of a frame boundary, plus every 257th offset
+        cuts = sorted({min(n, max(0, b + d)) for _, b in entry["offsets"] for d in range(-3, 4)}
+                      | {lo + d for lo, _ in entry["offsets"] for d in range(0, 4)}
+                      | set(range(0, n + 1, 257)) | {n})
+    else:
+        cuts = range(n + 1)
+    for k in cuts:
         for source in ("bytesio", "raw"):
             for api in ("generic", "rdflib"):
                 if api == "rdflib" and not entry["rdf11"]:
